@@ -13,7 +13,7 @@ Property theorems only. Model: `FeatherModel/Model/Diff.lean` (apply, diff), `Fe
 All theorems of parts (1)–(3) are for every namespace count, every namespace index and maps of every size; parts (4)–(6)
 are about `MappingsDiff::diff`, which the Rust types restrict to two namespaces.
 
-Overview: (1) `apply_exact` + the five level theorems, (2) `apply_untouched*`, (3) `apply_refuses*` and the refusal tables, (3b) `apply_preserves_wf_partial` with its witness,
+Overview: (1) `apply_exact` + the five level theorems, (2) `apply_untouched*`, (3) `apply_refuses*` and the refusal tables, (3b) `apply_preserves_wf` (full strength) with its regression input,
 (4) `diff_total_on`, `diff_apply_partial` with its witnesses, (5) the `.tinydiff` text: `read_write`,
 `read_no_top_level`, `apply_read_back`, `diff_apply_text_partial` with its witnesses, (6) non-vacuity examples.
 -/
@@ -93,16 +93,34 @@ theorem refuses_present_iff {K D T : Type} (ops : Ops K D T) (ns N : Nat) (child
     · simp [h0]
     · by_cases h1 : (ops.names t)[ns]? = some (some a) <;> simp [h0, h1]
 
-/-- the refused combinations for a key that does not exist in the target: everything but Add (and Add when the
-children/javadoc diff of the new entry is refused). NOTE: the first namespace is NOT refused here (the code assigns
-`names[ns]` directly), see `add_absent_first_namespace_witness`. -/
+/-- the refused combinations for a key that does not exist in the target: everything but Add; an Add in the first
+namespace (the new name goes through `change_name` like any other: the first namespace "needs to be kept in sync with the
+keys"); an Add whose children/javadoc diff is refused. (`(names (fromKey N k))[ns]? = some none` holds for every
+namespace index `0 < ns < N` a mapping set has — parameters: `ns < N` — so this disjunct never fires in `apply_to`.) -/
 theorem refuses_absent_iff {K D T : Type} (ops : Ops K D T) (ns N : Nat) (child : D → T → Option T) (k : K) (d : D) :
     applySpec ops ns N child k (some d) none = none ↔
       match ops.action d with
-      | .add b => child d (ops.setNames (ops.fromKey N k) ((ops.names (ops.fromKey N k)).set ns (some b))) = none
+      | .add b => ns = 0 ∨ (ops.names (ops.fromKey N k))[ns]? ≠ some none ∨
+          child d (ops.setNames (ops.fromKey N k) ((ops.names (ops.fromKey N k)).set ns (some b))) = none
       | _ => True := by
   simp only [applySpec]
-  cases ops.action d <;> simp
+  cases ops.action d with
+  | none => simp
+  | remove a => simp
+  | edit a b => simp
+  | add b =>
+    simp only
+    by_cases h0 : ns = 0
+    · simp [h0]
+    · by_cases h1 : (ops.names (ops.fromKey N k))[ns]? = some none <;> simp [h0, h1]
+
+/-- in the first namespace nothing can be added, removed or renamed: every diff entry whose action is not `None` is
+refused, whether its key exists or not -/
+theorem first_namespace_refuses {K D T : Type} (ops : Ops K D T) (N : Nat) (child : D → T → Option T) (k : K) (d : D)
+    (ot : Option T) (h : ops.action d ≠ .none) : applySpec ops 0 N child k (some d) ot = none := by
+  cases ot with
+  | none => rw [refuses_absent_iff]; cases ha : ops.action d <;> simp_all
+  | some t => rw [refuses_present_iff]; cases ha : ops.action d <;> simp_all
 
 /-- the refused combinations of `apply_diff_option` (javadoc at all five levels): Add on an existing comment,
 Remove/Edit with an absent or different old comment -/
@@ -424,39 +442,34 @@ theorem apply_refuses_mappings {d : Diff} {t : Mappings} {nsName : JStr} (hd : N
         | some doc => cases applyMap classOps ns t.ns.length (applyClass ns t.ns.length) d.classes t.classes <;> simp
       · simp [hh]
 
-/-- **Deviation from the property text (found while modelling, reproduced on the real code):** the first namespace is
-refused for entries that exist, but an `Add` under a key the target does not have is applied to the first namespace
-too — the new entry is stored under key `Z` with first-namespace name `b`. -/
-theorem add_absent_first_namespace_witness :
+/-- **regression** (defect C04-add-first-namespace-absent-key, repaired in /repo by "fix: applying a diff refuses an
+addition under a new key in the first namespace"): an `Add` under a key the target does not have used to be applied to
+the first namespace too (entry stored under key `Z` with first-namespace name `b`); now it is refused -/
+theorem add_absent_first_namespace_refused :
     applyTo { info := .none, doc := .none, classes := [(jstr "Z", { info := .add (jstr "b"), doc := .none, fields := [], methods := [] })] }
-      { ns := [jstr "official", jstr "named"], doc := none, classes := [] } (jstr "official")
-    = some { ns := [jstr "official", jstr "named"], doc := none,
-             classes := [(jstr "Z", { names := [some (jstr "b"), none], doc := none, fields := [], methods := [] })] } := by
+      { ns := [jstr "official", jstr "named"], doc := none, classes := [] } (jstr "official") = none := by
   decide
 
-/-! ## (3b) the result is a well-formed mapping set again — outside the first namespace -/
+/-! ## (3b) the result is a well-formed mapping set again -/
 
 /-- the result of `apply_diff_map` has unique keys, whatever the diff -/
 theorem apply_result_keys_unique {K D T : Type} [BEq K] [LawfulBEq K] (ops : Ops K D T) (ns N : Nat) (child : D → T → Option T)
     {diffs : AList K D} {targets res : AList K T} (h : applyMap ops ns N child diffs targets = some res) : NoDup res :=
   nodup_applyMap ops ns N child h
 
-/-- **apply_preserves_wf_partial**: applied to a well-formed set (`WF`: unique keys, every entry stored under the key
-its first-namespace name (+ descriptor / index) gives, name rows as long as the namespace list) in a namespace OTHER THAN
-THE FIRST, a successful application gives a well-formed set again — nothing "silently wrong" comes out. For the first
-namespace this fails: `apply_preserves_wf_first_namespace_witness`. -/
-theorem apply_preserves_wf_partial {d : Diff} {t r : Mappings} {nsName : JStr} {ns : Nat} (hd : Diff.WF d) (ht : WF t)
-    (hn : t.getNamespace nsName = some ns) (hns : ns ≠ 0) (h : applyTo d t nsName = some r) : WF r :=
-  applyTo_preserves_wf hd ht hn hns h
+/-- **apply_preserves_wf** (full strength, every namespace): a successful application of a key-unique diff to a
+well-formed set (`WF`: unique keys, every entry stored under the key its first-namespace name (+ descriptor / index)
+gives, name rows as long as the namespace list) gives a well-formed set again — nothing "silently wrong" comes out. -/
+theorem apply_preserves_wf {d : Diff} {t r : Mappings} {nsName : JStr} (hd : Diff.WF d) (ht : WF t)
+    (h : applyTo d t nsName = some r) : WF r :=
+  applyTo_preserves_wf hd ht h
 
-/-- **defect** (reproduced on the real code): in the FIRST namespace an `Add` under a key the target does not have is
-not refused (entries that exist are: `change_name` bails out, "it needs to be kept in sync with the keys"); the new entry
-is stored under key `Z` while its first-namespace name is `b` — the result is not well formed -/
-theorem apply_preserves_wf_first_namespace_witness :
+/-- **regression**: the input on which `apply_preserves_wf` used to fail (first namespace, `Add` under an absent key)
+is inside its domain and is refused -/
+theorem apply_preserves_wf_first_namespace_regression :
     let d : Diff := { info := .none, doc := .none, classes := [(jstr "Z", { info := .add (jstr "b"), doc := .none, fields := [], methods := [] })] }
     let t : Mappings := { ns := [jstr "official", jstr "named"], doc := none, classes := [] }
-    Diff.WF d ∧ WF t ∧ t.getNamespace (jstr "official") = some 0 ∧
-      ∃ r, applyTo d t (jstr "official") = some r ∧ ¬ WF r := by
+    Diff.WF d ∧ WF t ∧ t.getNamespace (jstr "official") = some 0 ∧ applyTo d t (jstr "official") = none := by
   decide
 
 /-! ## (4) `diff` then `apply` -/
@@ -611,14 +624,14 @@ theorem diff_apply_text_top_comment_witness :
 
 /-- `diff_apply_partial` / `diff_apply_text_partial` apply to a pair sharing some keys and differing at all five levels
 (class renamed, field removed, method added with a parameter, parameter renamed keeping its source name, comments
-added / removed / edited with a line feed) -/
+added / removed / edited with a line feed, a TAB, a CR, a backslash and the two characters backslash-`n`) -/
 example :
     let a : Mappings := { ns := [jstr "official", jstr "named"], doc := some (jstr "top"), classes := [
       (jstr "p/A", { names := [some (jstr "p/A"), some (jstr "q/X")], doc := some (jstr "old"), fields := [((jstr "f", jstr "I"), { desc := jstr "I", names := [some (jstr "f"), some (jstr "g")], doc := none })], methods := [((jstr "m", jstr "(I)V"), { desc := jstr "(I)V", names := [some (jstr "m"), some (jstr "n")], doc := none, params := [(0, { index := 0, names := [some (jstr "s"), some (jstr "p")], doc := some (jstr "pd") })] })] }),
       (jstr "B", { names := [some (jstr "B"), some (jstr "Y")], doc := none, fields := [], methods := [] })] }
     let b : Mappings := { ns := [jstr "official", jstr "named"], doc := some (jstr "top"), classes := [
       (jstr "C", { names := [some (jstr "C"), some (jstr "Z")], doc := none, fields := [], methods := [] }),
-      (jstr "p/A", { names := [some (jstr "p/A"), some (jstr "q/W")], doc := some (jstr "new\nline"), fields := [], methods := [((jstr "k", jstr "()V"), { desc := jstr "()V", names := [some (jstr "k"), some (jstr "l")], doc := some (jstr "md"), params := [(1, { index := 1, names := [none, some (jstr "q")], doc := none })] }), ((jstr "m", jstr "(I)V"), { desc := jstr "(I)V", names := [some (jstr "m"), some (jstr "n")], doc := none, params := [(0, { index := 0, names := [some (jstr "s"), some (jstr "r")], doc := none })] })] })] }
+      (jstr "p/A", { names := [some (jstr "p/A"), some (jstr "q/W")], doc := some (jstr "new\nline\ttab \\n bs\\ cr\r"), fields := [], methods := [((jstr "k", jstr "()V"), { desc := jstr "()V", names := [some (jstr "k"), some (jstr "l")], doc := some (jstr "md"), params := [(1, { index := 1, names := [none, some (jstr "q")], doc := none })] }), ((jstr "m", jstr "(I)V"), { desc := jstr "(I)V", names := [some (jstr "m"), some (jstr "n")], doc := none, params := [(0, { index := 0, names := [some (jstr "s"), some (jstr "r")], doc := none })] })] })] }
     WF a ∧ WF b ∧ ParamSrcless a b ∧ ∃ d, diff a b = some d ∧ Writable d ∧ d ≠ normDiff d := by
   decide
 
@@ -633,7 +646,8 @@ example :
     applyTo (d "A" (.edit (jstr "W") (jstr "N"))) t (jstr "named") = none ∧ applyTo (d "Z" .none) t (jstr "named") = none ∧
     applyTo (d "Z" (.remove (jstr "X"))) t (jstr "named") = none ∧ applyTo (d "B" (.remove (jstr "X"))) t (jstr "named") = none ∧
     (applyTo (d "B" (.add (jstr "N"))) t (jstr "named")).isSome ∧ (applyTo (d "A" (.remove (jstr "X"))) t (jstr "named")).isSome ∧
-    (applyTo (d "Z" (.add (jstr "N"))) t (jstr "named")).isSome ∧ applyTo (d "A" (.edit (jstr "X") (jstr "N"))) t (jstr "official") = none := by
+    (applyTo (d "Z" (.add (jstr "N"))) t (jstr "named")).isSome ∧ applyTo (d "A" (.edit (jstr "X") (jstr "N"))) t (jstr "official") = none ∧
+    applyTo (d "Z" (.add (jstr "N"))) t (jstr "official") = none := by
   decide
 
 end Thm.C04
